@@ -11,6 +11,7 @@ import re
 
 from ..gen import tlbvals as V
 from .. import tracetlb as TR
+from .. import tlbsrc as SRC
 
 SPEC = dict(
     manifest=dict(
@@ -48,24 +49,38 @@ SPEC = dict(
              'ShardStateUnsplit, ShardState(2), LibDescr. '
              'PARTIAL: config parameters other than ValidatorSet/CatchainConfig/ConsensusConfig (ConfigParam0..82) are not '
              'modelled; OutMsgQueueInfo, the Merkle state update of a Block and the two ^InMsg of McBlockExtra are opaque cells '
-             '(as in the parser); chained signatures and addr_var addresses are not generated.',
+             '(as in the parser); chained signatures and addr_var addresses are not generated. '
+             'SOURCE TIE (regenerated + proved): the deserialize classmethods of 29 parser classes are regenerated into Lean on every run '
+             '(harness/translate/tlbparsers.py -> Generated/TlbParsers.lean) and for each a theorem c16_src_<Class> proves, for ALL values and '
+             'ANY trailer, that the regenerated parser run on the spec encoding returns every field with its encoded value (declared view '
+             'Spec/Tlb/PyView.lean) and consumes exactly the encoded bits and refs: HashUpdate, TickTock, StorageUsed, StorageUsedShort, '
+             'StorageInfo, AccountStatus, StateInit, AccountState, ExtBlkRef, BlkMasterInfo, BlkPrevInfo (0/1), KeyExtBlkRef, KeyMaxLt, Counters, '
+             'CreatorStats, ValidatorInfo, ShardIdent, GlobalVersion, SplitMergeInfo, SigPubKey, AccStatusChange, ComputeSkipReason, '
+             'TrStoragePhase, TrComputePhase, TrBouncePhase, FutureSplitMerge, IntermediateAddress, ValidatorDescr, CatchainConfig. '
+             'All other classes (dictionary-, address- and recursion-using parsers, TrActionPhase, BlockInfo) remain tied by the sampled and '
+             'read-trace layers only.',
         level_note='Theorems are about the Lean spec codec pair (the independent implementation of the schema), for all values. '
-                   'The Python parsers are NOT translated: they are tied by differential testing against the spec encoder on '
+                   'For the 29 classes of the SOURCE TIE the parser is regenerated from the source and proved (trusted there: the '
+                   'hand model of the Slice methods Model/TlbRd.lean and the translator, both validated every run against the real '
+                   'deserialize on generated cells, and the declared views). The other Python parsers are NOT translated: they are tied by differential testing against the spec encoder on '
                    'generated values (every constructor, optional-field combination, boundary and random field values), on '
                    'the bundled block, and by agreement of the typed read sequence on every path of the schema (path-complete / '
                    'local path-complete lists in the text) — a parser branching on a field VALUE the schema does not branch on is '
                    'outside that enumeration. Trusted: transcription of block.tlb into Spec/Tlb/Block.lean, the attribute table in '
                    'harness/props/C16.py, harness/tracetlb.py (recording slice, trace alignment), the driver and cell construction.',
-        technique='Lean 4 proof (lawful codec combinators, laws composed by type-class resolution) + differential '
+        technique='Lean 4 proof (lawful codec combinators, laws composed by type-class resolution; 29 parser classes regenerated from '
+                  'source and proved to refine the spec decoder) + differential '
                   'encoder->parser correspondence with the library + path-complete read-trace comparison (recording slice vs '
                   'proved spec trace)'),
+    translators=SRC.translator_entries(),
     design_ref='DESIGN.md §6 C16',
     rule='for every covered type: values generated by the Lean codec generators (every constructor alternative and Maybe/Either '
          'choice at random, integer fields from {0, 1, max, top bit, random}, random bit strings, random small Patricia trees) '
          'encoded by the spec encoder with a random trailer of bits and refs; plus one value per PATH of the schema term '
          '(tlbpaths full / loc, cap 300 quick, 3000 thorough; a path = its index in the fixed enumeration order); '
          'distinct = distinct (type, seed) / (type, mode, seed, path index); non-trivial = encodable',
-    trusted_base=['Spec/Tlb/Block.lean transcribes block.tlb (+ upstream constructors the parsers read) by hand',
+    trusted_base=['Model/TlbRd.lean (meaning of the Slice methods), harness/translate/tlbparsers.py, Spec/Tlb/PyView.lean (declared views) for the c16_src_* theorems',
+                  'Spec/Tlb/Block.lean transcribes block.tlb (+ upstream constructors the parsers read) by hand',
                   'harness/props/C16.py READERS: library attribute <-> schema field table', 'harness/gen/tlbvals.py flattening of spec trees',
                   'Drv/Tlb.lean value printing and DAG emission; harness/gen/cells.lib_build',
                   'harness/tracetlb.py: RecSlice records every primitive read of pytoniq_core.boc.slice.Slice; alignment rules of compare()'],
@@ -865,6 +880,12 @@ def run_paths(ctx, P, types):
 
 def run(ctx):
     P = parsers()
+    # source tie: c16_src_* evaluated on generated values (search mode: the values on which a broken obligation is false go to
+    # the oracle first), then translator validation (regenerated Lean reader vs the real deserialize on the same cells)
+    SRC.theorem_check(ctx, check_value, P)
+    if ctx.search and ctx.failures:
+        return        # a broken c16_src_* obligation already has its concrete failing input
+    SRC.validate(ctx)
     late = ['TransactionDescr', 'Transaction', 'MsgEnvelope', 'InMsg', 'OutMsg', 'AccountBlock', 'InMsgDescr', 'OutMsgDescr', 'ShardAccountBlocks',
             'McBlockExtra', 'McStateExtra', 'BlockExtra', 'Block', 'ShardStateUnsplit', 'ShardState']
     order = sorted(t for t in P if t not in late) + late
